@@ -22,6 +22,9 @@ pub struct GCase {
     pub ext4: bool,
     /// report format used for the observation: json or default
     pub text: bool,
+    /// feed the input paths through --stdin (one per line) instead of as arguments
+    #[serde(default)]
+    pub stdin: bool,
 }
 
 #[derive(Clone, Copy, PartialEq, Eq, Debug)]
@@ -68,8 +71,9 @@ pub fn case_strategy(which: Which) -> BoxedStrategy<GCase> {
                 if which == Which::C03 { prop::option::weighted(0.3, extra).boxed() } else { Just(None).boxed() },
                 prop::bool::weighted(0.15),
                 prop::bool::weighted(0.3),
+                prop::bool::weighted(0.2),
             )
-                .prop_map(move |(tree, mut opts, extra, ext4, text)| {
+                .prop_map(move |(tree, mut opts, extra, ext4, text, stdin)| {
                     if which == Which::C03 {
                         // -H changes counting only (C06's business); keep the simple rule here
                         opts.match_links = false;
@@ -77,7 +81,7 @@ pub fn case_strategy(which: Which) -> BoxedStrategy<GCase> {
                     if opts.match_links && opts.symbolic_links {
                         // documented-dangerous combination, still legal for group: keep
                     }
-                    GCase { tree, roots, extra_roots: extra.unwrap_or_default(), opts, ext4, text }
+                    GCase { tree, roots, extra_roots: extra.unwrap_or_default(), opts, ext4, text, stdin }
                 })
         })
         .boxed()
@@ -130,12 +134,13 @@ pub fn run_case(which: Which, c: &GCase, n: u64) -> Verdict {
         }
     }
     let fmt = if c.text { "default" } else { "json" };
-    let mut run = run_group(&cd, &c.opts, &roots, fmt, &[]);
+    let group = |cd: &CaseDir| if c.stdin { run_group_stdin(cd, &c.opts, &roots, fmt, &[]) } else { run_group(cd, &c.opts, &roots, fmt, &[]) };
+    let mut run = group(&cd);
     let mut runs = 1;
     if c.opts.cache && run.out.ok() {
         // second run is served from the cache; both must satisfy the property
         let first = run.report.clone();
-        let second = run_group(&cd, &c.opts, &roots, fmt, &[]);
+        let second = group(&cd);
         runs = 2;
         if let (Ok(a), Ok(b)) = (&first, &second.report) {
             if a.path_sets() != b.path_sets() {
@@ -165,7 +170,14 @@ pub fn run_case(which: Which, c: &GCase, n: u64) -> Verdict {
     }
     let report = match &run.report {
         Ok(r) => r,
-        Err(e) => return fail("unparsable-report", &run.cmdline, e.clone(), sig),
+        Err(e) => {
+            return fail(
+                "unparsable-report",
+                &run.cmdline,
+                format!("{}\nstdout ({} bytes) starts: {:?}\n{}", e, run.out.stdout.len(), String::from_utf8_lossy(&run.out.stdout[..run.out.stdout.len().min(300)]), run.out.brief()),
+                sig,
+            )
+        }
     };
 
     // ---- C01: soundness of every group -------------------------------------------------------
@@ -314,6 +326,9 @@ pub fn run_case(which: Which, c: &GCase, n: u64) -> Verdict {
             if !c.extra_roots.is_empty() {
                 classes.push("overlapping-roots".into());
             }
+            if c.stdin {
+                classes.push(if c.extra_roots.is_empty() { "roots-from-stdin".into() } else { "overlapping-roots-from-stdin".into() });
+            }
             if expected.len() >= 2 {
                 classes.push("two-or-more-expected-groups".into());
             }
@@ -340,7 +355,7 @@ pub fn check(which: Which, tier: Tier) -> i32 {
         ),
         Which::C03 => ctx.finish(
             "exploration",
-            "proptest-generated trees (2-5 palette contents shared by 5-18 files over 1-3 roots, nested dirs, hard links, overlapping/repeated roots) x configurations (rf-over 0..3, rf-under 1..4, unique, transform, cache, hash fn, prefix/suffix sizes, pinned device, thread specs); oracle: reference content partition of the reference selection + documented replica rule, compared as a set of path-sets with lengths (nothing missing, split, merged, duplicated or unselected). Non-trivial = >=2 expected groups AND a reported class with members in >=2 directories whose size >= prefix length in force AND >=1 class that must not be reported.",
+            "proptest-generated trees (2-5 palette contents shared by 5-18 files over 1-3 roots, nested dirs, hard links, overlapping/repeated roots, given as arguments or - one case in five - through --stdin) x configurations (rf-over 0..3, rf-under 1..4, unique, transform, cache, hash fn, prefix/suffix sizes, pinned device, thread specs); oracle: reference content partition of the reference selection + documented replica rule, compared as a set of path-sets with lengths (nothing missing, split, merged, duplicated or unselected). Non-trivial = >=2 expected groups AND a reported class with members in >=2 directories whose size >= prefix length in force AND >=1 class that must not be reported.",
             &["plain name profile: no hidden names, no ignore files (selection subtleties are C09's)", "replica counting uses the simple rule (no -H, no --isolate) here; C06 covers the rest"],
         ),
     }
